@@ -17,6 +17,8 @@ for cp in checks:
         det.append({"check": cp, "harnesses": sorted({v["harness"] for v in vs}), "violations": vs[:6]})
 meta["detected_by"] = det
 meta["detected"] = bool(det)
+if det:
+    meta.pop("why_missed", None)
 meta["breaks_property"] = prop
 meta["needs_to_manifest"] = needs
 meta["what_i_ran"] = ["tools/validate_seeded.py %s %s (demo without change; git apply; go build ./...; go test ./message/... ./pubsub/... ./components/... .; demo with change)" % (prop, mut)] + \
